@@ -12,6 +12,7 @@ import (
 	"io"
 	"log"
 	"net"
+	"runtime"
 	"strings"
 	"sync"
 	"testing"
@@ -71,7 +72,7 @@ type Case struct {
 	PendingRead bool   `json:"pending_read,omitempty"` // a Read is blocked while the bytes arrive
 }
 
-const hangLimit = 90 * time.Second
+const hangLimit = 5 * time.Second
 
 func content(seed uint64, n int) []byte {
 	sm := gen.NewSM(seed)
@@ -277,7 +278,8 @@ func (r *runner) connect() bool {
 			r.fail("addr", "RemoteAddr of a connection dialled to %q is %q", c.Target, got)
 		}
 	case "listen":
-		r.call("Listen", func() { r.ln, err = r.tnc.Listen() })
+		var lgid string
+		r.call("Listen", func() { lgid = gid(); r.ln, err = r.tnc.Listen() })
 		if r.sig != "" {
 			return false
 		}
@@ -298,18 +300,17 @@ func (r *runner) connect() bool {
 			defer close(acc)
 			asig, amsg = harness.Catch(func() { r.conn, aerr = r.ln.Accept() })
 		}()
-		// Accept must be pending and the listener registered before a station connects (a real connect
-		// takes seconds): two full command round trips through the control loop first.
-		for i := 0; i < 2; i++ {
-			r.call("Version", func() { r.tnc.Version() })
-		}
+		// A station connects seconds after LISTEN at the earliest; the library registers its listener for
+		// TARGET/CONNECTED in a goroutine that Listen() starts but does not wait for. Wait until that
+		// goroutine sits in its select loop (observed through the runtime, no clock in any verdict).
+		r.waitListener(lgid)
 		remote := c.Target
 		r.notePTT(c.DialScript...)
 		r.s.InboundConnect(c.DialScript, c.Mycall, remote, 500)
 		select {
 		case <-acc:
 		case <-time.After(hangLimit):
-			harness.Record("hang:Accept", c, "Accept did not return after TARGET/CONNECTED")
+			harness.Record("hang:Accept", c, "Accept did not return after TARGET/CONNECTED: "+r.transcript(10)+stacks())
 			harness.ExitHung()
 		}
 		if asig != "" {
@@ -442,6 +443,13 @@ func (r *runner) checkHostFrames() {
 
 func (r *runner) write(st Step) {
 	r.finishFlush() // one call at a time on the connection
+	if r.sig != "" {
+		return
+	}
+	// Write takes any BUFFER report as the acknowledgement of its frame. A report about earlier data that
+	// is still on its way when Write starts is a real-time coincidence the property does not cover: a
+	// command round trip makes sure every event sent so far has been dispatched.
+	r.call("Version", func() { r.tnc.Version() })
 	if r.sig != "" {
 		return
 	}
@@ -713,6 +721,45 @@ func (r *runner) end() {
 			r.fail("read-empty", "Read after the end of the session returned (0, nil)")
 		}
 	})
+}
+
+// gid returns the id of the calling goroutine.
+func gid() string {
+	buf := make([]byte, 64)
+	f := strings.Fields(string(buf[:runtime.Stack(buf, false)]))
+	if len(f) > 1 {
+		return f[1]
+	}
+	return "?"
+}
+
+// waitListener returns once the goroutine started by TNC.Listen (called from goroutine creator) is
+// blocked in its select loop, i.e. has registered for control messages. Best effort after 5 s.
+func (r *runner) waitListener(creator string) {
+	buf := make([]byte, 4<<20)
+	deadline := time.Now().Add(5 * time.Second)
+	for time.Now().Before(deadline) {
+		for _, g := range strings.Split(string(buf[:runtime.Stack(buf, true)]), "\n\n") {
+			if strings.Contains(g, "ardop.(*TNC).Listen.func1") && strings.Contains(g, "in goroutine "+creator+"\n") && strings.Contains(strings.SplitN(g, "\n", 2)[0], "[select") {
+				return
+			}
+		}
+		time.Sleep(20 * time.Microsecond)
+	}
+	harness.Label("listener-not-observed")
+}
+
+// stacks renders the library's goroutines for a hang report.
+func stacks() string {
+	buf := make([]byte, 1<<20)
+	buf = buf[:runtime.Stack(buf, true)]
+	var keep []string
+	for _, g := range strings.Split(string(buf), "\n\n") {
+		if strings.Contains(g, "wl2k-go/transport/ardop") {
+			keep = append(keep, g)
+		}
+	}
+	return "\n" + strings.Join(keep, "\n\n")
 }
 
 func closed(ch chan struct{}) bool {
